@@ -16,11 +16,30 @@
   the clauses of the prose are read off it below.  Helper lemmas live in KavaVerif/Proofs/Cdp*.lean.
 -/
 import KavaVerif.Proofs.CdpExample
+import KavaVerif.Generated.CdpFacts
 set_option linter.unusedSimpArgs false
 set_option linter.unusedVariables false
 
 namespace KV.Cdp
 open KV
+
+/-! ### source tables (regenerated from /repo on every run) -/
+
+/-- The code paths that rewrite the ratio index are the ones the model transcribes: the helper path is used
+    by AddCdp, AddPrincipal, DepositCollateral, RepayPrincipal, SeizeCollateral, SynchronizeInterest,
+    WithdrawCollateral and payoutKeeperLiquidationReward; the only hand-rolled path is
+    `SynchronizeInterestForRiskyCDPs` (`calculateCollateralRatio`); the five user operations synchronise
+    interest first; each deposit's share of the debt is rounded with `RoundInt` and not adjusted afterwards
+    (4 assignments in `AuctionCollateral`).  A source edit that adds or removes a path regenerates the table
+    and re-opens this obligation. -/
+theorem C04_source_index_paths :
+    KV.Gen.cdpBulkRatioCallers = ["SynchronizeInterestForRiskyCDPs"] ∧
+    KV.Gen.cdpRatioIndexHelperCallers = ["AddCdp", "AddPrincipal", "DepositCollateral", "RepayPrincipal",
+      "SeizeCollateral", "SetCdpAndCollateralRatioIndex", "SynchronizeInterest", "UpdateCdpAndCollateralRatioIndex",
+      "WithdrawCollateral", "payoutKeeperLiquidationReward", "removeOldCollateralRatioIndex"] ∧
+    KV.Gen.cdpSyncCallers = ["AddPrincipal", "AttemptKeeperLiquidation", "DepositCollateral", "RepayPrincipal",
+      "WithdrawCollateral"] ∧
+    KV.Gen.cdpDebtShareRounding = "RoundInt" ∧ KV.Gen.cdpAuctionCollateralAssignments = 4 := by decide
 
 /-! ### the invariant holds along every history -/
 
